@@ -63,8 +63,11 @@ def exact_event(c: dict, holder: str) -> dict:
     try:
         with warnings.catch_warnings():
             warnings.simplefilter("ignore")
+            import c05
             T = build(tuple(c["shape"]), c["entries"], c["n"], c["rot"], holder)
+            snap = c05.snapshot(T)
             v = T.nvecs(c["n"], c["r"], flipsign=bool(c["flipsign"]))
+            kept = c05.snapshot(T) == snap
         v = np.asarray(v)
         real = not np.iscomplexobj(v) or bool(np.all(np.abs(v.imag) == 0)) and False
         real = not np.iscomplexobj(v)
@@ -73,7 +76,8 @@ def exact_event(c: dict, holder: str) -> dict:
         sc = vr * s
         exact = bool(np.all(np.abs(sc - np.round(sc)) < 1e-6))
         cols = [[int(round(x)) for x in sc[:, j]] for j in range(sc.shape[1])] if sc.ndim == 2 else []
-        return {"op": "nvecs_exact", "args": a, "ret": {"st": "ok", "real": real, "exact": exact, "cols": cols}}
+        return {"op": "nvecs_exact", "args": a, "ret": {"st": "ok", "real": real, "exact": exact, "cols": cols,
+                                                        "receiver_unchanged": bool(kept)}}
     except Exception as e:
         return {"op": "nvecs_exact", "args": a, "ret": {"st": "raised", "msg": f"{type(e).__name__}: {e}"[:150]}}
 
@@ -116,9 +120,12 @@ def general_event(c: dict, holder: str) -> dict:
                 G[(r,) * N] = w[r]
             core_t = ttb.tensor(G)
             T = ttb.ttensor(core_t.to_sptensor() if holder == "ttensor_sparse_core" else core_t, U)
+        import c05
+        snap = c05.snapshot(T)
         with warnings.catch_warnings():
             warnings.simplefilter("ignore")
             v = np.asarray(T.nvecs(c["n"], c["r"], flipsign=bool(c["flipsign"])))
+        kept = c05.snapshot(T) == snap
         real = not np.iscomplexobj(v)
         v = np.real(v)
         Xn = np.moveaxis(Xd, c["n"], 0).reshape(shape[c["n"]], -1)
@@ -131,7 +138,7 @@ def general_event(c: dict, holder: str) -> dict:
         return {"op": "nvecs", "args": a, "ret": {"st": "ok", "real": real, "ncols": int(v.shape[1]),
                 "orth_dev": e9(np.max(np.abs(v.T @ v - np.eye(v.shape[1])))), "eigpair_dev": e9(eig_dev),
                 "decreasing": bool(np.all(np.diff(rho) <= 1e-6 * ev[0])),
-                "dominant_dev": e9(abs(np.sum(rho) - np.sum(ev[: v.shape[1]])) / top), "sign_rule": bool(sign_ok)}}
+                "dominant_dev": e9(abs(np.sum(rho) - np.sum(ev[: v.shape[1]])) / top), "sign_rule": bool(sign_ok), "receiver_unchanged": bool(kept)}}
     except Exception as e:
         return {"op": "nvecs", "args": a, "ret": {"st": "raised", "msg": f"{type(e).__name__}: {e}"[:150]}}
 
